@@ -705,9 +705,26 @@ type vfFakeMail struct {
 }
 
 func (m *vfFakeMail) SendMail(from string, to []string, msg []byte) error {
-	// let the caller reach its select first (sendMail drops a result nobody is waiting for)
-	for i := 0; i < 2000; i++ {
-		runtime.Gosched()
+	// The repository's sendMail hands the result over with a NON-blocking send: a
+	// sender that finishes before its caller has reached the select loses the
+	// result, and the caller then waits for a timer - which under the virtual clock
+	// never fires.  A real SMTP exchange takes far longer than the caller needs to
+	// get there; the fake waits until the caller is seen parked in that select
+	// (goroutine dump), so the outcome does not depend on machine load.
+	deadline := time.Now().Add(10 * time.Second)
+	buf := make([]byte, 1<<20)
+	for time.Now().Before(deadline) {
+		n := runtime.Stack(buf, true)
+		parked := false
+		for _, g := range strings.Split(string(buf[:n]), "\n\n") {
+			if strings.Contains(g, ").sendMail(") && strings.Contains(strings.SplitN(g, "\n", 2)[0], "[select") {
+				parked = true
+			}
+		}
+		if parked {
+			break
+		}
+		time.Sleep(time.Millisecond)
 	}
 	m.mu.Lock()
 	m.Sent++
